@@ -32,6 +32,12 @@ def walkSpec (raw : Bytes) (lim : Nat) (chain : List (Bytes × Bytes)) (_leafStr
   else if (chain.getLast?.map (·.1)) != some mimeOctet then "SPEC C02:chain-not-rooted"
   else ""
 
+/-- C18: the root formats that outrank tar ("tar sits after exe/elf/ar and before the remaining root
+    formats"): tree.go's root children in front of `tar`, by node name -/
+def tarOutrankers : List String :=
+  ["xpm", "sevenZ", "zip", "pdf", "fdf", "ole", "ps", "psd", "p7s", "ogg", "png", "jpg", "jxl", "jp2", "jpx",
+   "jpm", "jxs", "gif", "webp", "exe", "elf", "ar"]
+
 def startsWithS (b : Bytes) (s : String) : Bool := hasPrefix b (ofString s)
 
 /-- C19 oracle: the implementation's verdict against the entry names read back with archive/zip -/
